@@ -136,6 +136,7 @@ fn main() {
         "{{ a.nope.x }}",
         "{{ a?.nope?.x is defined }}{{ u?.x is undefined }}",
         "{{ c ~ a.y ~ 1 }}",
+        "{{ (b if c else a)[0] }}|{{ (c or a)[\"y\"] }}",
         "{{ c in b }}{{ \"r\" in b }}{{ \"x\" in c }}",
         "{% set m = {\"x\": nope} %}[{{ m.x }}]",
     ];
